@@ -8,15 +8,27 @@ PROP = {'title': 'optional / either / variant combinators satisfy their algebrai
                'table: all 27 D->D, all 64 D->optional<D>, all 125 D->either<E,D>, all 3^9 D x D->D, ...), every value category of every '
                'argument and every container up to length 4 is run through the real fcppt templates; results, the arguments each '
                'continuation received and the number of times it was invoked are compared with a tagged-union model written out by hand, '
-               'and the functor/applicative/monad laws are evaluated on all (value, f, g) triples. Because the templates are parametric '
-               'in the element type, agreement on a 3-element domain for all functions is what the for-all-values-and-functions claim '
-               'needs; no test enumerates functions.',
+               'and the functor/applicative/monad laws are evaluated on all (value, f, g) triples. Because the templates are parametric in '
+               'the element type, agreement on a 3-element domain for all functions is what the for-all-values-and-functions claim needs; '
+               'no test enumerates functions.',
  'level_note': 'element types are small value classes whose move operations poison the source, so use-after-move and moves out of lvalue '
-               'arguments show up as wrong values; n-ary (n=3) applications use one injective recording function instead of all tables; '
-               'quick tier: containers up to length 3, binary tables into a 2-element codomain, monad::do_ on either with 25 of the 125 first-step tables',
+               'arguments show up as wrong values; the combinators named in the statement are run again (harness/C04_rich.hpp) with a '
+               'heap-backed payload (std::string far beyond the small-string buffer + int, both must agree) and a move-only payload '
+               '(unique_ptr), each with continuations taking their argument by value, by const reference and as a forwarding reference, '
+               'for const&/&/&& sources (ill-formed combinations are left out at compile time); class hierarchies (harness/C04_poly.cpp): '
+               'try_call with thrown objects of classes derived from Exception (user hierarchy with virtual payload, std::exception '
+               'hierarchy via what()/dynamic_cast), to_exception throwing derived objects, variant<Base,Derived> in both orders; n-ary '
+               '(n=3) applications use one injective recording function instead of all tables; quick tier: containers up to length 3, '
+               'binary tables and the rich/poly match tables into a 2-element codomain, monad::do_ on either with 25 of the 125 first-step '
+               'tables',
  'binaries': [{'name': 'C04',
-               'sources': ['harness/C04.cpp', 'harness/C04_either.cpp', 'harness/C04_variant.cpp', 'harness/C04_poly.cpp',
-                           'harness/C04_rich_val.cpp', 'harness/C04_rich_heap.cpp', 'harness/C04_rich_move_only.cpp'],
+               'sources': ['harness/C04.cpp',
+                           'harness/C04_either.cpp',
+                           'harness/C04_variant.cpp',
+                           'harness/C04_poly.cpp',
+                           'harness/C04_rich_val.cpp',
+                           'harness/C04_rich_heap.cpp',
+                           'harness/C04_rich_move_only.cpp'],
                'libs': [],
                'flavour': 'asan'}],
  'deadline': {'quick': 240, 'thorough': 1200},
@@ -26,15 +38,27 @@ PROP = {'title': 'optional / either / variant combinators satisfy their algebrai
          'comparison tables per variant alternative (2^9, 2^4, 2^4), containers of length <= 4 (<= 3 quick) over the 4 resp. 5 values, '
          'scripted next()-sequences for loop, function lists for first_success; reference = integer-coded tagged union computed with plain '
          'table lookups; a case is non-trivial when a value is present / the success or mixed branch is taken so that at least one '
-         'continuation must run (for containers: non-empty; for comparisons: both sides hold a value of the same alternative); cases '
-         'are distinct argument tuples',
- 'assumptions': ['basic observers (has_value/get_unsafe, has_success/get_*_unsafe, type_index/get_unsafe<T>) are used to read results; they '
-                 'are cross-checked against construction in the object shards',
+         'continuation must run (for containers: non-empty; for comparisons: both sides hold a value of the same alternative); cases are '
+         'distinct argument tuples; rich shards: payload family {val, heap_string, move_only} x source category {const&, &, &&} x '
+         'continuation style {by_value, by_cref, forward} x the same value/table domains for '
+         'optional::filter/map/bind/maybe/from/alternative/combine, either::map/map_failure/bind/match/sequence/first_success, '
+         'variant::match/apply (plus identity continuations that return their argument); poly shards: try_call<Exception> for Exception in '
+         '{base, derived, derived2, std::exception, std::runtime_error, std::logic_error, user class} x 13 behaviours of the function (3 '
+         'results, 7 thrown objects of the hierarchy, int, unrelated struct, std::runtime_error) x all 128 to_exception tables over the '
+         'observed (dynamic class, payload), 5 std classes x 3 messages; variant<Base,Derived> over 9 values x all (base table, derived '
+         'table) pairs',
+ 'assumptions': ['basic observers (has_value/get_unsafe, has_success/get_*_unsafe, type_index/get_unsafe<T>) are used to read results; '
+                 'they are cross-checked against construction in the object shards',
                  'optional::combine with both arguments empty must be empty (the documentation names only the other three cases)',
-                 'try_call: an exception of a type unrelated to Exception must propagate, one derived from Exception is caught',
-                 'optional::to_container is not exercised with a const lvalue (does not compile, reported); either::sequence with lvalue '
-                 'sources is exercised only if its requires-clause accepts them (otherwise one violation per category)',
                  'ternary apply/maybe_multi/variant::apply use one injective function (every other function is that one followed by a '
                  'table lookup)',
                  'move-only element types, output operators, dynamic_cast and type_info helpers are outside this property (C05 covers '
-                 'value conservation)']}
+                 'value conservation)',
+                 "try_call: an object of a class derived from Exception is 'an exception of type Exception' (it is caught), and the "
+                 'documented result to_exception(e) is about that very object: to_exception must observe its dynamic class and derived '
+                 'payload; exceptions of unrelated types (and of base classes of Exception) propagate unchanged',
+                 'try_call: copies of the exception object between throw and to_exception are counted (counter '
+                 'try_call:exception_object_copies) but not judged; a copy at the static type is judged through what to_exception then sees',
+                 'rich payloads: combinations that cannot compile are not instantiated (by_value/forward continuations or source-returning '
+                 'combinators on an lvalue move_only source; optional::filter always passes an lvalue to the predicate, so a move_only '
+                 'payload uses by_cref there); either::sequence and to_container with lvalue sources rely on the fixes b3e0bc8 / c55e90e']}
